@@ -196,7 +196,8 @@ class _Obs(list):
 
 
 def _ulps(*xs):
-    return 8 * np.finfo(float).eps * max(abs(float(x)) for x in xs)
+    """slack of an inequality between independently computed sums of a few terms of that magnitude"""
+    return 64 * np.finfo(float).eps * max(abs(float(x)) for x in xs)
 
 
 # ----------------------------------------------------------------------------------------------------------------------
@@ -302,7 +303,7 @@ def _check_cds_payoff(sh, obs, df, r, icls, thetas, pricer_spread):
                     s_imp = float(pricer_spread(v, a, R, T))
                     obs.add(s_imp)
                     sh.count("evaluations")
-                    if not core.close(s_imp, s, rtol=1e-7, atol=1e-9):
+                    if not core.close(s_imp, s, rtol=1e-7, atol=1e-8):
                         sh.violation(f"C19:payoff:implied_cds_spread:expected-payoff-not-mapped-to-spread:{icls}",
                                      f"implied_cds_spread(E[CDS payoff]) = {s_imp!r}, contract spread {s}",
                                      {"a": a, "R": R, "T": T, "spread": s, "pv": v, "implied": s_imp})
@@ -439,9 +440,7 @@ def _one_dim(sh, case, obs):
             sh.cls("threshold-outside-(l,-h)-excluded")
             continue
         # ---------------------------------------------------------------- references (independent of the chain)
-        q_box, e_box = O.integrate_density(nu, l, a)
         q_all, e_all = O.integrate_density(nu, -INF, a)
-        i_box = float(nu.integrate(l, a))
         # ---------------------------------------------------------------- (ii) un-restricted closed form
         try:
             theta = float(cf._theta(a))
@@ -461,29 +460,37 @@ def _one_dim(sh, case, obs):
                          f"_theta({a}) = {theta!r}, quadrature of the density over (-inf, a] = {q_all!r} (+-{e_all:.1e})",
                          {"a": a, "theta": theta, "quadrature": q_all, "err": e_all})
         # ---------------------------------------------------------------- (i) box intensity of the truncated model
-        trunc = copy.deepcopy(model)
-        trunc.truncate_levy_measure(truncations=(l, rr))
-        try:
+        box_cache = {}
+
+        def box_refs(tl, tr):
+            """closed form of the model truncated to the grid's own truncation [tl, tr], checked against nu([tl, a])"""
+            if (tl, tr) in box_cache:
+                return box_cache[(tl, tr)]
+            q_box, e_box = O.integrate_density(nu, tl, a)
+            i_box = float(nu.integrate(tl, a))
+            trunc = copy.deepcopy(model)
+            trunc.truncate_levy_measure(truncations=(tl, tr))
             theta_box = float(CFLevyModel(trunc)._theta(a))
-        except Exception as e:
-            sh.violation(f"C19:box-rate:CFLevyModel:raises-{type(e).__name__}:{icls}", f"truncated _theta({a}): {type(e).__name__}: {e}", {"a": a})
-            continue
-        obs.add(theta_box)
-        sh.count("evaluations", 2)
-        if not core.close(theta_box, i_box, rtol=RTOL):
-            sh.violation(f"C19:box-rate:CFLevyModel:truncated-theta-ne-nu[l,a]:oracle=integrate:{icls}",
-                         f"CFLevyModel(model truncated to [{l},{rr}])._theta({a}) = {theta_box!r}, nu.integrate(l, a) = {i_box!r}",
-                         {"a": a, "l": l, "r": rr, "theta_box": theta_box, "nu[l,a]": i_box})
-        if e_box > 1e-9 * abs(q_box):
-            sh.count("oracle_inconclusive")
-        elif not core.close(theta_box, q_box, rtol=RTOL_Q):
-            sh.violation(f"C19:box-rate:CFLevyModel:truncated-theta-ne-nu[l,a]:oracle=quadrature:{icls}",
-                         f"CFLevyModel(truncated)._theta({a}) = {theta_box!r}, quadrature of the density over [l, a] = {q_box!r}",
-                         {"a": a, "l": l, "theta_box": theta_box, "quadrature": q_box, "err": e_box})
-        sh.count("evaluations")
-        if theta - theta_box < -_ulps(theta, theta_box):
-            sh.violation(f"C19:theta:CFLevyModel:below-box-intensity:{icls}",
-                         f"theta({a}) = {theta!r} < intensity restricted to the box = {theta_box!r}", {"a": a, "theta": theta, "theta_box": theta_box})
+            obs.add(theta_box)
+            sh.count("evaluations", 3)
+            if not core.close(theta_box, i_box, rtol=RTOL):
+                sh.violation(f"C19:box-rate:CFLevyModel:truncated-theta-ne-nu[l,a]:oracle=integrate:{icls}",
+                             f"CFLevyModel(model truncated to [{tl},{tr}])._theta({a}) = {theta_box!r}, nu.integrate(l, a) = {i_box!r}",
+                             {"a": a, "l": tl, "r": tr, "theta_box": theta_box, "nu[l,a]": i_box})
+            conclusive = e_box <= 1e-9 * abs(q_box)
+            if not conclusive:
+                sh.count("oracle_inconclusive")
+            elif not core.close(theta_box, q_box, rtol=RTOL_Q):
+                sh.violation(f"C19:box-rate:CFLevyModel:truncated-theta-ne-nu[l,a]:oracle=quadrature:{icls}",
+                             f"CFLevyModel(truncated)._theta({a}) = {theta_box!r}, quadrature of the density over [l, a] = {q_box!r}",
+                             {"a": a, "l": tl, "theta_box": theta_box, "quadrature": q_box, "err": e_box})
+            if theta - theta_box < -_ulps(theta, theta_box):
+                sh.violation(f"C19:theta:CFLevyModel:below-box-intensity:{icls}",
+                             f"theta({a}) = {theta!r} < intensity restricted to the box = {theta_box!r}",
+                             {"a": a, "theta": theta, "theta_box": theta_box})
+            box_cache[(tl, tr)] = (theta_box, q_box if conclusive else None)
+            return box_cache[(tl, tr)]
+
         # ---------------------------------------------------------------- the chains on the credit grid
         for sym in (True, False):
             try:
@@ -503,10 +510,17 @@ def _one_dim(sh, case, obs):
             if abs(mid - a) > _ulps(a):
                 sh.violation(f"C19:grid:CTMCCredit:threshold-not-on-cell-boundary:{icls}",
                              f"middle({ax[below]}, {ax[below + 1]}) = {mid!r}, threshold {a!r}", {"a": a, "axis": ax})
-            tl, tr = (float(x) for x in grid.truncations[0])
-            if (tl, tr) != (l, rr):  # the box of the oracle is the grid's own truncation
-                sh.violation(f"C19:grid:CTMCCredit:truncation-ne-compute_truncation:{icls}",
-                             f"grid.truncations = {(tl, tr)}, compute_truncation = {(l, rr)}", {"a": a})
+            tl, tr = (float(x) for x in grid.truncations[0])  # the box of the oracle is the grid's own truncation
+            if not all(x < y for x, y in zip(ax, ax[1:])):
+                sh.violation("C19:grid:CTMCCredit:axis-not-increasing:d=1",
+                             f"CTMCCredit(h={h}, level_a={a}) axis = {ax} is not increasing", {"a": a, "h": h, "axis": ax, "model": icls})
+                sh.count("skipped_malformed_grid")
+                continue
+            try:
+                theta_box, q_box = box_refs(tl, tr)
+            except Exception as e:
+                sh.violation(f"C19:box-rate:CFLevyModel:raises-{type(e).__name__}:{icls}", f"truncated _theta({a}): {type(e).__name__}: {e}", {"a": a})
+                continue
             und = DefaultTime(default_level=a)
             q_vec = create_q_vector(proc.model.levy_triplet.nu, grid)
             closure = getattr(proc.sampling, "probability_to_jump_to_state", None)
@@ -540,7 +554,7 @@ def _one_dim(sh, case, obs):
                     sh.violation(f"C19:box-rate:MarkovChainProcess:default-rate-ne-box-intensity:via={via}:{icls}",
                                  f"sum of rates of the {n_default} states below a={a} = {tot!r}, closed form of the truncated model = {theta_box!r} "
                                  f"(axis {ax})", {"a": a, "h": h, "symmetric": sym, "axis": ax, "rate": tot, "theta_box": theta_box, "via": via})
-                if e_box <= 1e-9 * abs(q_box) and not core.close(tot, q_box, rtol=RTOL_Q):
+                if q_box is not None and not core.close(tot, q_box, rtol=RTOL_Q):
                     sh.violation(f"C19:box-rate:MarkovChainProcess:default-rate-ne-quadrature-of-density:via={via}:{icls}",
                                  f"sum of rates of the states below a={a} = {tot!r}, quadrature of nu over [l, a] = {q_box!r}",
                                  {"a": a, "h": h, "symmetric": sym, "axis": ax, "rate": tot, "quadrature": q_box, "via": via})
